@@ -104,6 +104,10 @@ def op_term(words):
         return "MuxClearGroup %s %s" % (hd(a[0]), zz(a[1]))
     if n == "MuxClearAll":
         return "MuxClearAll %s" % hd(a[0])
+    if n == "CloneEnum":
+        return "EnumClone %s" % hd(a[0])
+    if n == "CloneEval":
+        return "EvalClone %s" % hd(a[0])
     if n == "StdSetType":
         return "L3 (StdSetType %s %s %s)" % (hd(a[0]), oh(a[1]), bb(a[2]))
     if n == "StdSetUnit":
